@@ -26,7 +26,7 @@ def worker(ctx, job):
     from vf.flo import runner, monitors
     for seed, fi in job["items"]:
         rng = random.Random(seed)
-        prog = gen.gen_program(rng, gen.feat(**FEATS[fi]))
+        prog = gen.gen_program(rng, gen.pickfeat(FEATS, fi))
         text = P.render(prog)
         res = runner.run_text(text, maxticks=prog["ticks"] + 12, post=True)
         if not res.built:
@@ -48,8 +48,8 @@ def worker(ctx, job):
 
 
 def run(ctx):
-    n = ctx.pick(500, 8000)
-    items = [(ctx.rng.randrange(1 << 30), i % len(FEATS)) for i in range(n)]
+    n = ctx.pick(500, 30000)
+    items = [(ctx.rng.randrange(1 << 30), i % gen.nfeats(FEATS, ctx)) for i in range(n)]
     ctx.shard([{"items": items[i::16]} for i in range(16)], timeout=ctx.pick(300, 1500))
     ctx.floor("outline_changes", 200)
     ctx.floor("truncations", 20)
